@@ -41,7 +41,7 @@ def observe_path(frame, use_kaitai):
 
 def run(ctx):
     ctx.rule = ("the repository's captured 72-octet frames and generated well-formed frames: sequence {0,1,255,random} x 4 packet types x slot "
-                "types x frame types x call types x colour codes 0..15 x both timeslots x ids {0,1,2^24-1,random} x random reserved bytes, "
+                "types x frame types x call types x colour codes 0..15 x both timeslots x ids {0,1,2^24-1,random, zero / all-ones octets in each position} x random reserved bytes, "
                 "payload = a burst valid for the indicated kind (data bursts by data type, voice bursts, sync / wake-up). distinct = frames.")
     ctx.assumptions += [
         "well-formed frame: 0x5A5A, colour nibble repeated four times, low octet of both id fields zero, payload pad octet zero, timeslot 0x1111/0x2222; frames with unknown packet / frame types are folded with a warning by design and are not generated",
@@ -78,7 +78,10 @@ def run(ctx):
         else:
             burst = bytes(33)
             slot, frame_type = 0xDDDD, 0x0000
-        ident = lambda: rng.choice([0, 1, 2 ** 24 - 1, rng.randrange(1 << 24)])
+        # 24-bit ids: extremes, random values and values with zero / all-ones octets in each position
+        ident = lambda: rng.choice([0, 1, 2 ** 24 - 1, rng.randrange(1 << 24), rng.randrange(1 << 24),
+                                    rng.choice([0x000100, 0x010000, 0x800000, 0x00FF00, 0xFF0000, 0x0000FF, 0x123400, 0x120034, 0x001234, 0xFFFF00]),
+                                    rng.randrange(1 << 16) << 8, rng.randrange(1 << 8) << 16])
         call = rng.choice([0, 1]) if slot != 0xDDDD else rng.choice([0, 1, 2, 12])
         f = (gen.rbytes(rng, 2) + b"ZZ" + bytes([rng.choice([0, 1, 255, rng.randrange(256)])]) + gen.rbytes(rng, 3)
              + bytes([rng.choice([65, 66, 67, 1])]) + gen.rbytes(rng, 7)
